@@ -577,3 +577,73 @@ package vm
 //@   modifies nothing
 //@   ensures[C03.current_ctx] result == d.currentCtx
 //@   panics never
+
+// ---------------------------------------------------------------------------------------------
+// state_db.go — account destruction / creation / self-destruct (C15, supply effects C04)
+// ---------------------------------------------------------------------------------------------
+//@ import vestexported "github.com/cosmos/cosmos-sdk/x/auth/vesting/exported"
+//@ import vestingtypes "github.com/cosmos/cosmos-sdk/x/auth/vesting/types"
+
+// the account stored at address bytes a in layer l is PROTECTED at (unix) time t: a module account, or a vesting account
+// (any kind) whose vesting period has not ended at t
+//@ ghost macro acctProtectedAt(l int, a bytes, t int) bool = acctExists[l][a] && (implements(acctTag[l][a], type(sdk.ModuleAccountI)) || ((acctTag[l][a] == type(*vestingtypes.BaseVestingAccount) || implements(acctTag[l][a], type(vestexported.VestingAccount))) && acctVestEnd[l][a] > t))
+
+// DestroyAccount removes the account record, burns every balance, removes code hash and storage of addr — and must refuse
+// (panic, which fails the transaction) protected accounts, judged at the BLOCK TIME of the current context (property C15).
+// The storage clause is TRUSTED: it is what the ForEachStorage callback achieves (higher-order, not expanded by the engine).
+//@ func (d *cStateDb) DestroyAccount(addr common.Address)
+//@   requires d != nil && d.bankKeeper != nil && d.evmKeeper != nil
+//@   modifies acctExists[layer(d.currentCtx)], acctSeq[layer(d.currentCtx)], authVersion[layer(d.currentCtx)], acctTag[layer(d.currentCtx)], acctVestEnd[layer(d.currentCtx)], bankBal[layer(d.currentCtx)], bankSupply[layer(d.currentCtx)], evlog[payload(d.currentCtx.EventManager())], evmCodeHash[layer(d.currentCtx)], evmStorage[layer(d.currentCtx)]
+//@   ensures[C15.destroy_protected_refused] !old(acctProtectedAt(layer(d.currentCtx), addrBytes(addr), hdrTimeUnix(hdr(d.currentCtx))))
+//@   ensures[C15.destroy_account_record] !acctExists[layer(d.currentCtx)][addrBytes(addr)] && acctSeq[layer(d.currentCtx)][addrBytes(addr)] == 0 && (forall a bytes :: a != addrBytes(addr) ==> (acctExists[layer(d.currentCtx)][a] == old(acctExists[layer(d.currentCtx)][a]) && acctSeq[layer(d.currentCtx)][a] == old(acctSeq[layer(d.currentCtx)][a]) && acctTag[layer(d.currentCtx)][a] == old(acctTag[layer(d.currentCtx)][a]) && acctVestEnd[layer(d.currentCtx)][a] == old(acctVestEnd[layer(d.currentCtx)][a])))
+//@   ensures[C15.destroy_balances] forall a bytes, den string :: bankBal[layer(d.currentCtx)][a][den] == (a == addrBytes(addr) ? 0 : old(bankBal[layer(d.currentCtx)][a][den]))
+//@   ensures[C04.destroy_supply,C15.destroy_supply] forall den string :: bankSupply[layer(d.currentCtx)][den] == old(bankSupply[layer(d.currentCtx)][den]) - old(bankBal[layer(d.currentCtx)][addrBytes(addr)][den])
+//@   ensures[C15.destroy_no_locked_coins] forall den string :: old(bankBal[layer(d.currentCtx)][addrBytes(addr)][den]) > 0 ==> bankLocked(layer(d.currentCtx), hdr(d.currentCtx), addrBytes(addr), den) <= 0
+//@   ensures[C15.destroy_code_hash] forall a bytes :: evmCodeHash[layer(d.currentCtx)][a] == (a == addrBytes(addr) ? zero(type(common.Hash)) : old(evmCodeHash[layer(d.currentCtx)][a]))
+//@   ensures[C15.destroy_other_storage] forall a common.Address :: a != addr ==> evmStorage[layer(d.currentCtx)][a] == old(evmStorage[layer(d.currentCtx)][a])
+//@   trusted ensures[C15.destroy_storage] forall k common.Hash :: evmStorage[layer(d.currentCtx)][addr][k] == zero(type(common.Hash))
+//@   panics[C15.destroy_refuses_only_protected] only_if acctProtectedAt(layer(d.currentCtx), addrBytes(addr), hdrTimeUnix(hdr(d.currentCtx))) || (exists den string :: bankBal[layer(d.currentCtx)][addrBytes(addr)][den] != 0)
+
+// CreateAccount (EVM CREATE at an address): whatever was at the address is destroyed (same guard), a fresh base account
+// is stored and the balances are carried over: no coin is created or lost.
+//@ func (d *cStateDb) CreateAccount(address common.Address)
+//@   requires d != nil && d.touched != nil && d.bankKeeper != nil && d.evmKeeper != nil
+//@   modifies contents(d.touched), acctExists[layer(d.currentCtx)], acctSeq[layer(d.currentCtx)], authVersion[layer(d.currentCtx)], acctTag[layer(d.currentCtx)], acctVestEnd[layer(d.currentCtx)], bankBal[layer(d.currentCtx)], bankSupply[layer(d.currentCtx)], evlog[payload(d.currentCtx.EventManager())], evmCodeHash[layer(d.currentCtx)], evmStorage[layer(d.currentCtx)]
+//@   ensures[C03.mut_touched] forall a common.Address :: (a in d.touched) == (a == address || old(a in d.touched))
+//@   ensures[C15.create_protected_refused] !old(acctProtectedAt(layer(d.currentCtx), addrBytes(address), hdrTimeUnix(hdr(d.currentCtx))))
+//@   ensures[C15.create_fresh_account] acctExists[layer(d.currentCtx)][addrBytes(address)] && acctSeq[layer(d.currentCtx)][addrBytes(address)] == 0 && evmCodeHash[layer(d.currentCtx)][addrBytes(address)] == zero(type(common.Hash))
+//@   ensures[C04.create_carries_balances] forall a bytes, den string :: bankBal[layer(d.currentCtx)][a][den] == old(bankBal[layer(d.currentCtx)][a][den])
+//@   ensures[C04.create_supply] forall den string :: bankSupply[layer(d.currentCtx)][den] == old(bankSupply[layer(d.currentCtx)][den])
+//@   panics any
+
+// Suicide marks an EXISTING account as self-destructed and burns its EVM-denomination balance (through SubBalance, so
+// locked coins cannot be burnt); for a missing account nothing but the touched set changes.
+//@ func (d *cStateDb) Suicide(address common.Address) bool
+//@   requires d != nil && d.touched != nil && d.selfDestructed != nil && d.touched != d.selfDestructed && d.bankKeeper != nil
+//@   modifies contents(d.touched), contents(d.selfDestructed), bankBal[layer(d.currentCtx)], bankSupply[layer(d.currentCtx)], authVersion[layer(d.currentCtx)], evlog[payload(d.currentCtx.EventManager())]
+//@   ensures[C03.mut_touched] forall a common.Address :: (a in d.touched) == (a == address || old(a in d.touched))
+//@   ensures[C15.suicide_marks_existing_only] result == old(acctExists[layer(d.currentCtx)][addrBytes(address)]) && (forall a common.Address :: (a in d.selfDestructed) == ((result && a == address) || old(a in d.selfDestructed)))
+//@   ensures[C04.suicide_burns_balance] forall a bytes, den string :: bankBal[layer(d.currentCtx)][a][den] == ((result && a == addrBytes(address) && den == d.evmDenom) ? 0 : old(bankBal[layer(d.currentCtx)][a][den]))
+//@   ensures[C04.suicide_supply] forall den string :: bankSupply[layer(d.currentCtx)][den] == old(bankSupply[layer(d.currentCtx)][den]) - ((result && den == d.evmDenom) ? old(bankBal[layer(d.currentCtx)][addrBytes(address)][den]) : 0)
+//@   panics any
+
+// Selfdestruct6780: Suicide only for an account created within the transaction; never marks a missing account.
+//@ func (d *cStateDb) Selfdestruct6780(address common.Address)
+//@   requires d != nil && d.touched != nil && d.selfDestructed != nil && d.touched != d.selfDestructed && d.bankKeeper != nil
+//@   modifies contents(d.touched), contents(d.selfDestructed), bankBal[layer(d.currentCtx)], bankSupply[layer(d.currentCtx)], authVersion[layer(d.currentCtx)], evlog[payload(d.currentCtx.EventManager())]
+//@   ensures[C15.sd6780_marks_existing_only] forall a common.Address :: (a in d.selfDestructed) ==> (old(a in d.selfDestructed) || (a == address && old(acctExists[layer(d.currentCtx)][addrBytes(address)])))
+//@   ensures[C15.sd6780_committed_accounts_kept] (!old(acctExists[layer(d.currentCtx)][addrBytes(address)])) ==> ((forall a common.Address :: (a in d.selfDestructed) == old(a in d.selfDestructed)) && bankBal[layer(d.currentCtx)] == old(bankBal[layer(d.currentCtx)]) && bankSupply[layer(d.currentCtx)] == old(bankSupply[layer(d.currentCtx)]))
+//@   ensures[C04.sd6780_supply] forall den string :: bankSupply[layer(d.currentCtx)][den] <= old(bankSupply[layer(d.currentCtx)][den])
+//@   panics any
+
+//@ func (d *cStateDb) Exist(address common.Address) bool
+//@   requires d != nil
+//@   modifies nothing
+//@   ensures[C15.exist] result == ((address in d.selfDestructed) || acctExists[layer(d.currentCtx)][addrBytes(address)])
+//@   panics never
+
+//@ func (d *cStateDb) Empty(address common.Address) bool
+//@   requires d != nil && d.evmKeeper != nil
+//@   modifies nothing
+//@   ensures[C15.empty] result == (evmCodeHash[layer(d.currentCtx)][addrBytes(address)] == zero(type(common.Hash)) && (forall den string :: bankBal[layer(d.currentCtx)][addrBytes(address)][den] == 0) && acctSeq[layer(d.currentCtx)][addrBytes(address)] == 0 && (forall k common.Hash :: evmStorage[layer(d.currentCtx)][address][k] == zero(type(common.Hash))))
+//@   panics never
